@@ -336,6 +336,14 @@ class FrameStub(OpaqueValue):
             return FrameStub(f'{self.what}.{name}(...)')
         return model(derived)
 
+    def _getitem(self, key):
+        # a column (or a selection of rows / columns): another object derived from this table; reading alone changes nothing
+        return FrameStub(f'{self.what}[{key!r}]')
+
+    def _setitem(self, key, value):
+        # PD-FRAME-STORE: `df[col] = ...` replaces a column of THIS table in place: the table is no longer what was read
+        core.ctx().event('frame-derived', self, '__setitem__', (key, value), {})
+
     def _len(self):
         return core.ctx().fresh_int('nrows')
 
@@ -407,6 +415,13 @@ class PandasModel:
                 return False
             core.ctx().lib_used.add('PD-RANGEINDEX')
             return choice('index_is_held_as_a_RangeIndex')
+
+    @staticmethod
+    @model
+    def to_numeric(arg, **kw):
+        # PD-TO-NUMERIC: another object with (possibly) other values: cells that are not numbers become NaN with errors='coerce'
+        core.ctx().event('call', 'pandas.to_numeric', arg, kw)
+        return FrameStub(f'to_numeric({getattr(arg, "what", arg)!r})')
 
     @staticmethod
     def Series(data=None, index=None, **kw):
